@@ -365,4 +365,24 @@ pub(crate) mod c11 {
             kani::cover!(true);
         }
     }
+
+    harness! {
+        #[kani::unwind(20)]
+        fn x11_validator_two_tags() {
+            // experiment: the HashSet-based validator on two symbolic tags
+            let a: [u8; 16] = kani::any();
+            let b: [u8; 16] = kani::any();
+            let ta = UniqueTag::deserialize(ga!(a)).unwrap();
+            let tb = UniqueTag::deserialize(ga!(b)).unwrap();
+            let mut v = UniqueTagValidator::new(2);
+            let r1 = v.check_duplicate(&ta);
+            assert!(r1.is_ok());
+            let r2 = v.check_duplicate(&tb);
+            assert!(r2.is_err() == (u128::from_le_bytes(a) == u128::from_le_bytes(b)));
+            std::mem::forget(r1);
+            std::mem::forget(r2);
+            std::mem::forget(v);
+            kani::cover!(true);
+        }
+    }
 }
